@@ -16,6 +16,7 @@
      Count/Sum/Min/Max                                 <<src>>
      Aggregate  acc param    elem param                <<src, seed, body>>
      Coll       collection   bank                      <<event expr>>
+     Single     collection   bank                      <<event expr>>       singleton collection
      Meth       method                  n = #args      <<receiver, args...>>
      Range                                             <<lo, hi>>
      Idx                                               <<collection, index>>
@@ -133,6 +134,9 @@ Denote(q, env, ev) ==
     [] q.k = "Str" -> StrV(q.a)
     [] q.k = "Coll" ->
          IF HasBank(ev, q.a, q.b) THEN BankObjs(ev, q.a, q.b) ELSE Fault("retrieve_failed")
+    [] q.k = "Single" ->       \* a singleton collection: the one object of the bank
+         IF HasBank(ev, q.a, q.b) /\ Len(ev.store[StoreKey(q.a, q.b)]) = 1
+         THEN Obj(ev.store[StoreKey(q.a, q.b)][1]) ELSE Fault("retrieve_failed")
     [] q.k = "Meth" ->
          LET r == Denote(q.ch[1], env, ev) IN
          IF Bad(r) THEN r ELSE Attr(ev, r, q.a)
@@ -282,6 +286,7 @@ TypeOf(q, tenv, sig) ==
     [] q.k = "Const" -> NumT({q.a})
     [] q.k = "Str" -> [t |-> "str"]
     [] q.k = "Coll" -> SeqT(ObjT(sig.collClass[q.a]))
+    [] q.k = "Single" -> ObjT(sig.collClass[q.a])
     [] q.k = "Meth" ->
          LET r == TypeOf(q.ch[1], tenv, sig)
              key == r.c \o "." \o q.a IN
@@ -350,7 +355,7 @@ ColOK(loggedType, ct) == \E k \in ct.ks : loggedType = Spell(ct.depth, k)
 ----------------------------------------------------------------------------
 (* Store requests the job may make: exactly the (container type, bank) pairs of its Coll nodes *)
 RECURSIVE CollNodes(_)
-CollNodes(q) == (IF q.k = "Coll" THEN {<<q.a, q.b>>} ELSE {})
+CollNodes(q) == (IF q.k \in {"Coll", "Single"} THEN {<<q.a, q.b>>} ELSE {})
                 \cup UNION {CollNodes(q.ch[i]) : i \in DOMAIN q.ch}
 \* a bank named by the query that this event does not have.  Whether a retrieval whose
 \* result is never used happens at all is left open by the properties (MAY).
